@@ -90,6 +90,8 @@ class Engine(EngineBase):
                 init += [{"k": i} for i in rng.sample(g, min(len(g), rng.randrange(2, 4)))]
             for _ in range(rng.randrange(1, 7)):
                 init.append(gen_sp(rng, "abcd", 2))
+            if rng.random() < 0.2:
+                init.append({})  # the empty state point is a valid state point
             init = init[:12]
             n = rng.randrange(8, 30)
             for sp in init:
@@ -339,6 +341,18 @@ class Run:
         if muts:
             raise Mismatch("C02", "C02:open_job:wrote-to-disk",
                            f"open_job({sp}) made mutating calls: {muts[:3]}")
+        if self.prop == "C02":
+            # every accessor describes sp right after opening (nothing is on disk yet, nothing is loaded)
+            try:
+                got = {"id": hd.obj.id, "cached_statepoint": dict(hd.obj.cached_statepoint),
+                       "statepoint": hd.obj.statepoint()}
+            except Exception as e:  # noqa: BLE001
+                raise Mismatch("C02", "C02:open_job:accessor-raised",
+                               f"open_job({sp}) then id / cached_statepoint / statepoint raised "
+                               f"{type(e).__name__}: {e}", f"C02:open_job:accessor-raised:{type(e).__name__}")
+            hd.loaded = True
+            if got["id"] != cid(sp) or not same(got["cached_statepoint"], sp) or not same(got["statepoint"], sp):
+                raise Mismatch("C02", "C02:open_job:accessor-differs", f"open_job({sp}) shows {got}")
         if mutate:
             # later mutation of the caller's mapping must not reach the handle
             caller["zz_mut"] = 1
